@@ -24,6 +24,10 @@ def run(repo, tier) -> Result:
     check_collapse("C03", res, repo, want=("R-INTERVAL", "R-CONSERVE", "R-INVARIANT"))
     check_collapse_targets("C03", res, repo)
     check_epoch("C03", res, repo)
+    from ..driver import check_append_order, check_merge_callers
+
+    check_merge_callers("C03", res, repo)
+    check_append_order("C03", res, repo, parts=("manager",))
     # Hexital.candles(timeframe): a new timeframe manager must collapse its own deep copy of the base candles
     from .c08 import check_binding
 
